@@ -35,6 +35,7 @@ def jobs(tier, seed):
         out.append({'fn': 'program', 'cfg': {'target': i, 'extra': 2 if tier == 'quick' else 3}})
     for ch in C.chunks(list(range(len(D.INVALID))), 7):
         out.append({'fn': 'rejected', 'cfg': {'steps': ch}})
+    out.append({'fn': 'colliding_names', 'cfg': {}})
     out.append({'fn': 'program', 'cfg': {'target': D.VALID_INDEX['unit-a1'], 'extra': 0, 'canary': True}, 'canary': True})
     LAST_CONFIG_INFO.clear()
     LAST_CONFIG_INFO.update({'valid_templates': len(D.VALID), 'invalid_templates': len(D.INVALID),
@@ -96,4 +97,50 @@ def rejected(E, cfg):
     D.ensure(L, set(req))
     exc_cls = {'ValueError': ValueError, 'TypeError': TypeError, 'AssertionError': AssertionError}[exc]
     C.expect_raises(E, lambda: fn(L), exc_cls, 'invalid-declaration-rejected:' + name, [name])
+    from quantity import Unit
+    for sym in syms:
+        if sym == '':
+            continue
+        try:
+            Unit(sym)
+        except ValueError:
+            E.ok('rejected-declaration-symbol-unknown')
+        else:
+            E.fail('rejected-declaration-symbol-unknown', key='rejected:symbol-registered:' + name, info=[name, sym])
     D.check_directory(E, L, a, 'after-rejection')
+
+
+def colliding_names(E, cfg):
+    """types whose names are equal / share a long prefix are still distinct types: a second type for the same
+    dimension is rejected whatever the order of its factors, and term-defined units are accepted in either order"""
+    from quantity import Quantity
+    from quantity.term import Term
+    n1, n2 = E.choice('names', [('QuantityTypeWithAVeryLongCommonNameA', 'QuantityTypeWithAVeryLongCommonNameB'),
+                                ('Same', 'Same'), ('XA', 'XB')])
+    order = E.choice('order', ['ab', 'ba'])
+    A = C.mk_cls(n1, ref_unit_symbol='ca0')
+    B = C.mk_cls(n2, ref_unit_symbol='cb0')
+    if order == 'ba':
+        A, B = B, A
+    a0, b0 = A.ref_unit, B.ref_unit
+    ka = A.new_unit('cka', None, 1000 * a0)
+    AB = C.mk_cls('CQuot', define_as=A / B)
+    E.check(AB.ref_unit is not None and C.scale(AB.ref_unit) == 1, 'derived-reference-unit', key='colliding:ref-unit')
+    C.expect_raises(E, lambda: C.mk_cls('CQuot2', define_as=B ** -1 * A, ref_unit_symbol='cq2'), ValueError,
+                    'second-type-for-dimension-rejected-other-factor-order', [n1, n2, order])
+    C.expect_raises(E, lambda: C.mk_cls('CQuot3', define_as=Term(((B, -1), (A, 1)))), ValueError,
+                    'second-type-for-dimension-rejected-term', [n1, n2, order])
+    x = E.rational('x', 'dec')
+    for i, items in enumerate((((ka, 1), (b0, -1)), ((b0, -1), (ka, 1)))):
+        sym = 'cu%d' % i
+        try:
+            u = AB.new_unit(sym, None, Term(items))
+        except Exception as e:
+            E.fail('term-defined-unit-accepted-in-either-order', key='colliding:unit-rejected:%s' % type(e).__name__,
+                   info=[n1, n2, order, i])
+            continue
+        E.check(u.qty_cls is AB and Quantity(x, u).convert(AB.ref_unit).amount == x * 1000,
+                'term-defined-unit-scale', key='colliding:unit-scale', info=[n1, n2, order, i])
+    r = Quantity(x, ka) / Quantity(2, b0)
+    E.check(type(r) is AB and r.amount * C.scale(r.unit) == x * 500, 'quotient-type-and-value', key='colliding:quotient',
+            info=[n1, n2, order])
